@@ -207,8 +207,14 @@ class WbFabric:
     """
 
     def __init__(self, name, kind, module, masters, slaves, decs, lean_open, register=False, timeout=None,
-                 error_sig=None, alphabet=None, env=None, bus=None, spec=None, adr_shifts=None):
+                 error_sig=None, alphabet=None, env=None, bus=None, spec=None, adr_shifts=None, exclusive=True,
+                 adr_pool_extra=None):
         self.name, self.kind, self.module = name, kind, module
+        # `exclusive`: the address map is meant to be disjoint (everything SoCBusHandler accepts must be), so a
+        # cycle presented to two slaves is a violation (monitor rule R10); False only for the deliberately
+        # overlapping decoder sets that probe the model outside the theorems' hypothesis.
+        self.exclusive = exclusive
+        self.adr_pool_extra = list(adr_pool_extra or [])   # word addresses the generators must also visit
         self.masters, self.slaves, self.decs = masters, slaves, decs
         self.n, self.m = len(masters), len(slaves)
         self.register, self.timeout = register, timeout
@@ -445,6 +451,158 @@ def make_socbus(n, regions, interconnect="shared", register=True, timeout=1e6, d
     return inst
 
 
+
+# ---------------------------------------------------------------------------------------------------------
+# whole build scripts against a real SoCBusHandler (address-map glue: add_region / alloc_region /
+# check_regions_overlap / add_slave / add_master / do_finalize)
+
+def glue_word(op):
+    """Script line -> word of the Lean driver (`open socglue` / `call socglue`)."""
+    if op[0] == "M":
+        return "M"
+    if op[0] == "I":
+        return "I:%d:%d" % (op[1], op[2])
+    return "%s:%s:%d:%d:%d" % (op[0], "N" if op[1] is None else op[1], op[2], int(op[3]), int(op[4]))
+
+
+def _pow2(size):
+    return 1 << (size - 1).bit_length()
+
+
+class GlueBuild:
+    """A REAL `SoCBusHandler` driven by a build script.  Script lines (position k = name):
+         ("M",)                                 add_master("n<k>", Interface)
+         ("S", origin|None, size, cached, linker)   add_slave("n<k>", Interface, SoCRegion(...))
+         ("R", origin|None, size, cached, linker)   add_region("n<k>", SoCRegion(...))       (no slave)
+         ("I", origin, size)                    add_region("n<k>", SoCIORegion(origin, size, cached=False))
+    `verdict`: "ok" | ("rej", k) (SoCError raised by call k) | "finrej" (SoCError in do_finalize)."""
+
+    def __init__(self, script, interconnect="shared", register=True, timeout=8, data_width=32, address_width=32):
+        import sys
+        from litex.soc.integration import soc as S
+        self.script = [tuple(op) for op in script]
+        self.args = dict(interconnect=interconnect, register=register, timeout=timeout, data_width=data_width,
+                         address_width=address_width)
+        self.sh = (data_width // 8).bit_length() - 1
+        self.adr_width = address_width - self.sh
+        bus = S.SoCBusHandler(standard="wishbone", data_width=data_width, address_width=address_width,
+                              timeout=timeout, interconnect=interconnect, interconnect_register=register)
+        self.bus = bus
+        self.masters, self.slaves, self.slave_names = [], [], []
+        self.verdict = "ok"
+        stderr = sys.stderr
+        try:
+            for k, op in enumerate(self.script):
+                name = "n%d" % k
+                try:
+                    if op[0] == "M":
+                        mst = wishbone.Interface(data_width=data_width, adr_width=self.adr_width)
+                        bus.add_master(name, mst)
+                        self.masters.append(mst)
+                    elif op[0] == "S":
+                        slv = wishbone.Interface(data_width=data_width, adr_width=self.adr_width)
+                        bus.add_slave(name, slv, S.SoCRegion(origin=op[1], size=op[2], cached=bool(op[3]), linker=bool(op[4])))
+                        self.slaves.append(slv)
+                        self.slave_names.append(name)
+                    elif op[0] == "R":
+                        bus.add_region(name, S.SoCRegion(origin=op[1], size=op[2], cached=bool(op[3]), linker=bool(op[4])))
+                    elif op[0] == "I":
+                        bus.add_region(name, S.SoCIORegion(origin=op[1], size=op[2], cached=False))
+                    else:
+                        raise ValueError(op)
+                except S.SoCError:
+                    self.verdict = ("rej", k)
+                    break
+            if self.verdict == "ok":
+                try:
+                    bus.finalize()
+                except S.SoCError:
+                    self.verdict = "finrej"
+        finally:
+            sys.stderr = stderr               # SoCError.__init__ sets sys.stderr = None
+        self.n, self.m = len(self.masters), len(self.slaves)
+        self.slave_regions = [(bus.regions[nm].origin, bus.regions[nm].size) for nm in self.slave_names
+                              if nm in bus.regions]
+        ic = getattr(bus, "_interconnect", None)
+        self.topology = {"InterconnectPointToPoint": "p2p", "InterconnectShared": "shared", "Crossbar": "crossbar"}.get(
+            type(ic).__name__, "none")
+
+    def summary(self):
+        """Canonical outcome, same shape as the Lean driver's `call socglue` answer."""
+        if self.verdict == "ok":
+            return "ok %s %d %s" % (self.topology, self.n, " ".join("%d:%d" % r for r in self.slave_regions))
+        if self.verdict == "finrej":
+            return "finrej"
+        return "rej %d" % self.verdict[1]
+
+    def lean_args(self):
+        a = self.args
+        return "%s %d %s %d %d %s" % (a["interconnect"], int(a["register"]),
+                                      "none" if a["timeout"] is None else int(a["timeout"]), a["data_width"],
+                                      a["address_width"], " ".join(glue_word(op) for op in self.script))
+
+    def describe(self):
+        return "SoCBusHandler(%s%s to=%s) script [%s]" % (
+            self.args["interconnect"], " reg" if self.args["register"] else "", self.args["timeout"],
+            " ".join(glue_word(op) for op in self.script))
+
+    def boundary_words(self):
+        """Word addresses at every region boundary, in every rounding gap and outside all regions."""
+        mask = (1 << self.args["address_width"]) - 1
+        pts = {0, mask}
+        regs = [(r.origin, r.size) for r in list(self.bus.regions.values()) + list(self.bus.io_regions.values())
+                if r.origin is not None]
+        for (o, sz) in regs:
+            p2 = _pow2(sz)
+            for b in (o - 1, o, o + sz - 1, o + sz, o + (sz + p2) // 2, o + p2 - 1, o + p2, o + 2 * p2):
+                pts.add(b & mask)
+        return sorted({b >> self.sh for b in pts})
+
+    def overlap_witness(self):
+        """Specification check (independent of check_regions_overlap and of the Lean model): a byte address that
+        lies in the decoded (size_pow2) windows of two different slaves' non-linker regions, or None."""
+        regs = []
+        for j, nm in enumerate(self.slave_names):
+            r = self.bus.regions.get(nm)
+            if r is not None and not r.linker:
+                regs.append((j, r.origin, _pow2(r.size)))
+        for a in range(len(regs)):
+            for b in range(a + 1, len(regs)):
+                (ja, oa, pa), (jb, ob, pb) = regs[a], regs[b]
+                lo, hi = max(oa, ob), min(oa + pa, ob + pb)
+                if lo < hi:
+                    return {"slaves": [ja, jb], "byte_address": lo,
+                            "windows": ["[%#x, %#x)" % (oa, oa + pa), "[%#x, %#x)" % (ob, ob + pb)]}
+        return None
+
+    def fabric(self, **kw):
+        """The finalized bus as a fabric instance (only for verdict ok with masters and slaves).  Monitor map =
+        the regions registered (explicit origins from the script, allocated ones validated by overlap_witness)."""
+        assert self.verdict == "ok" and self.n and self.m
+        a = self.args
+        topo = expected_topology(self.n, self.slave_regions, a["interconnect"])
+        kind = {"crossbar": "xbar", "none": "shared"}.get(topo, topo)
+        decs = [DecRegion(o, sz) for (o, sz) in self.slave_regions]
+        has_to = topo == "shared" and a["timeout"] is not None
+        linker_slaves = any(self.bus.regions[nm].linker for nm in self.slave_names)
+        inst = WbFabric(kw.pop("name", self.describe()), kind, self.bus, self.masters, self.slaves, decs,
+                        "socglue " + self.lean_args(), register=a["register"] and topo != "p2p",
+                        timeout=int(a["timeout"]) if has_to else None,
+                        error_sig=_err_sig(getattr(self.bus, "_interconnect", None)),
+                        spec=BusSpec(a["data_width"], self.adr_width, None, self.n),
+                        exclusive=not linker_slaves, adr_pool_extra=self.boundary_words(), **kw)
+        inst.topology = self.topology
+        return inst
+
+
+def make_socglue(script, **kw):
+    """Fabric instance of a build script that the specification expects to be accepted."""
+    name = kw.pop("name", None)
+    gb = GlueBuild(script, **kw)
+    if gb.verdict != "ok":
+        raise RuntimeError("build script rejected by the real SoCBusHandler (%s): %s" % (gb.summary(), gb.describe()))
+    return gb.fabric(**({"name": name} if name else {}))
+
 def make_p2p(data_width=8, adr_width=2, **kw):
     masters, slaves = _ifaces(1, data_width, adr_width), _ifaces(1, data_width, adr_width)
     mod = wishbone.InterconnectPointToPoint(masters[0], slaves[0])
@@ -518,6 +676,10 @@ class ProtocolEnv:
             for j in range(self.m):
                 ex = [inst.decs[j].example(rng, inst.bus) & mask for _ in range(8)]
                 pool += ex + [(min(ex) - 1) & mask, (max(ex) + 1) & mask]
+            extra = [a & mask for a in getattr(inst, "adr_pool_extra", [])]
+            if extra:
+                # region boundaries / rounding gaps / unmapped addresses named by the instance: half of the pool
+                pool += extra * max(1, len(pool) // max(1, len(extra)))
             self.adr_pool = pool or [0]
         return self.adr_pool
 
@@ -614,6 +776,9 @@ class FabricMonitor:
                      ownership moves at the next clock edge, and to a requesting master (no starvation by a stuck grant).
       R8 (timeout)   the timeout fires (`error`) only after `timeout` consecutive cycles in which the bus owner
                      drove cyc & stb and saw no ack (never early; the timing itself is C11's property).
+      R10 (one slave) (address maps that are meant to be disjoint, `inst.exclusive`) one master's cycle is presented
+                     (cyc & stb) to at most one slave: on a shared/point-to-point bus at most one slave sees
+                     cyc & stb per cycle, on a crossbar no master is the only possible owner of two such slaves.
       R7 (one term.) in a cycle in which every slave answers only a presented strobe: the number of masters that see
                      a termination equals the number of slaves answering (plus one if the timeout fired), and no
                      master sees a termination without driving cyc & stb.
@@ -681,6 +846,19 @@ class FabricMonitor:
                     if len(exps) == 1 and bool(to_s[j][0]) != exps.pop():
                         return "R2: slave %d is pointed at master %r (cyc=%d adr=%d) but sees cyc=%d" % (
                             j, cand, ms[cand[0]][0], ms[cand[0]][3], to_s[j][0])
+        # ---- R10: one master's cycle reaches at most one slave ------------------------------------------------
+        if getattr(inst, "exclusive", True):
+            seeing = [j for j in range(m) if to_s[j][0] and to_s[j][1]]
+            if len(seeing) > 1:
+                if self.kind in ("shared", "p2p"):
+                    return "R10: the cycle at word address %#x is presented to %d slaves %r at once" % (
+                        to_s[seeing[0]][3], len(seeing), seeing)
+                for a in range(len(seeing)):
+                    for b in range(a + 1, len(seeing)):
+                        ja, jb = seeing[a], seeing[b]
+                        if len(owners[ja]) == 1 and owners[ja] == owners[jb]:
+                            return "R10: master %d's cycle at word address %#x is presented to slaves %d and %d at once" % (
+                                owners[ja][0], to_s[ja][3], ja, jb)
         # ---- R3/R4: answers ---------------------------------------------------------------------------------
         timeout_fired = bool(error)
         if timeout_fired and inst.timeout is None:
